@@ -548,12 +548,15 @@ class Runner:
         self.ctx.check(ok, (self.mode, what, "differs-from-grid"),
                        f"{what} {extra}: table answers {got!r}, grid says {want!r}", self.case)
 
+    battery = None  # which oracle runs after each step; defaults to the mode (signatures keep the mode as prefix)
+
     def check(self):
-        if self.mode == "C01":
+        which = self.battery or self.mode
+        if which == "C01":
             self.check_model()
-        elif self.mode == "C02":
+        elif which == "C02":
             self.check_fresh()
-        elif self.mode == "C07":
+        elif which == "C07":
             self.check_lint()
 
     def check_model(self):
